@@ -28,7 +28,8 @@ Shrd  == {"s", "y", "g"}
 Timed == {"f", "g"}
 Tries == {"t", "y"}
 
-NoPend == [op |-> "-", incompat |-> FALSE, time |-> FALSE, notified |-> FALSE]
+\* must: a pending wait_for that was notified while it was blocked and before its deadline -- it has to report no_timeout
+NoPend == [op |-> "-", incompat |-> FALSE, time |-> FALSE, notified |-> FALSE, must |-> FALSE]
 
 S0(lt) ==
   [ lt |-> lt,
@@ -61,8 +62,8 @@ Begin(S, f, op) ==
     [] op = "r" ->
          IF f \notin S.sh THEN Bad(S1, <<"unlock_shared by a fiber that does not hold it", f>>)
          ELSE Refresh([S1 EXCEPT !.sh = S.sh \ {f}])
-    [] op \in {"n", "N"} -> [S1 EXCEPT !.pend = [g \in Fibers |-> IF g # f /\ S1.pend[g].op = "w"
-                                                                      THEN [S1.pend[g] EXCEPT !.notified = TRUE] ELSE S1.pend[g]]]
+    [] op \in {"n", "N", "F"} -> [S1 EXCEPT !.pend = [g \in Fibers |-> IF g # f /\ S1.pend[g].op = "w"
+                                                                           THEN [S1.pend[g] EXCEPT !.notified = TRUE] ELSE S1.pend[g]]]
     [] OTHER -> Refresh(S1)
 
 Acquire(S, f, op) ==
@@ -82,9 +83,19 @@ End(S, f, op, res) ==
          [] op \in Timed /\ res = "0" ->
               IF p.time THEN S1 ELSE Bad(S1, <<"timed acquisition failed before the deadline", f, op>>)
          [] op = "w" /\ res = "timeout" ->
-              IF p.time THEN S1 ELSE Bad(S1, <<"wait_for reported timeout before the deadline", f>>)
+              IF p.must THEN Bad(S1, <<"wait_for timed out although it was notified while blocked, before its deadline", f>>)
+              ELSE IF p.time THEN S1 ELSE Bad(S1, <<"wait_for reported timeout before the deadline", f>>)
          [] op = "w" /\ res = "no_timeout" ->
               IF p.notified THEN S1 ELSE Bad(S1, <<"wait_for reported no_timeout without a notify", f>>)
+         [] op \in {"n", "N", "F"} ->
+              \* the notify call is over.  The notifier has held the condition variable's mutex since before the call, so a
+              \* fiber whose wait is still pending released it inside wait before that: by the std contract it was blocked
+              \* on the condition variable during the call, and a notify_all (or a notify_one when it is the only one)
+              \* that came before its deadline wakes it
+              LET Ws == {g \in Fibers \ {f} : S1.pend[g].op = "w"}
+                  all == op \in {"N", "F"} \/ Cardinality(Ws) = 1
+              IN  [S1 EXCEPT !.pend = [g \in Fibers |-> IF g \in Ws /\ all /\ ~S1.pend[g].time
+                                                          THEN [S1.pend[g] EXCEPT !.must = TRUE] ELSE S1.pend[g]]]
          [] op = "z" ->
               IF p.time THEN S1 ELSE Bad(S1, <<"sleep_for returned before its deadline", f>>)
          [] op = "j" ->
